@@ -7,6 +7,7 @@ R-C18-3  who-may-call: OsRng only in `prove`; the verifier finalises transcript 
          no call into env/time/fs/net/thread/process/getrandom anywhere in the crate
 R-C18-4  Send + Sync compile-pass witnesses for the shared objects
 R-C18-5  verify_batch / prove_with_rng take `&mut` only to the transcripts (and the RNG)
+R-C18-6  no representation detail as a value: the capacity of a vector or an address may size an allocation and nothing else
 """
 import re
 from bpsa.facts import callee_decl, callee_name
@@ -186,6 +187,9 @@ def run(ctx):
         rep.check(muts <= allowed, 'R-C18-5', 'R-C18-5/%s' % suffix, '%s takes &mut only to %s' % (suffix, sorted(muts)),
                   '%s takes &mut to %s' % (suffix, sorted(muts - allowed)), ctx.where(b))
 
+    # R-C18-6 capacities and addresses are not values
+    representation_values(ctx)
+
     # R-C18-4 witnesses (type-check of the witness library against the current tree)
     if ctx.cfg == 'default':
         witness.check_pass(rep, 'R-C18-4', ['c18_send_sync'])
@@ -193,3 +197,93 @@ def run(ctx):
 
 def thorough(rep):
     witness.run(rep, 'C18', ['c18'])
+
+
+REPRESENTATION = ('capacity', 'as_ptr', 'as_mut_ptr', 'addr', 'expose_addr', 'expose_provenance', 'as_ptr_range')
+# where a capacity may go: into the size of an allocation, through arithmetic and iterator plumbing
+SIZE_SINKS = ('with_capacity', 'reserve', 'reserve_exact', 'try_reserve', 'try_reserve_exact', 'shrink_to')
+SIZE_PLUMBING = ('sum', 'map', 'iter', 'into_iter', 'fold', 'product', 'checked_add', 'checked_mul', 'checked_sub', 'saturating_add', 'saturating_mul', 'wrapping_add',
+                 'add', 'mul', 'sub', 'max', 'min', 'ok_or', 'ok_or_else', 'branch', 'from_residual', 'unwrap_or', 'into', 'from', 'try_from', 'try_into', 'map_err', 'next',
+                 'zip', 'enumerate', 'copied', 'cloned', 'new', 'deref', 'as_ref', 'borrow', 'call', 'call_mut', 'call_once', 'len', 'is_empty')
+
+
+def representation_values(ctx, RULE='R-C18-6'):
+    """The capacity of a vector (like an address) is not a function of the *value* of the vector: two equal witnesses may differ in it.
+    It may size an allocation; it may not reach anything else -- a length that is filled, a value that is absorbed, a condition.  Every
+    call of `capacity()` / `as_ptr()` / .. in the crate is followed: the terms that contain its result (directly, or through a closure
+    that returns it) may only be handed to allocation-size parameters, through arithmetic and iterator plumbing."""
+    rep = ctx.rep
+    facts = ctx.facts
+    fns = [b for b in facts.fns()]
+    sources = []            # (body, bb, result term)
+    tainted_closures = set()
+    for b in fns:
+        for bb, t in ctx.calls(b):
+            d = callee_decl(t)
+            if d.split('::')[-1] in REPRESENTATION and (d.startswith('std::vec::') or d.startswith('alloc::') or d.startswith('std::string::') or d.startswith('core::slice::')
+                                                       or d.startswith('std::collections::') or d.startswith('core::ptr::') or '<impl [T]>' in d):
+                if b.impl_trait in ('std::fmt::Debug', 'std::fmt::Display'):
+                    continue
+                r = ctx.result(b, bb)
+                sources.append((b, bb, r))
+                root = b
+                if b.is_closure:
+                    # does the closure hand the value on?  (its return value contains it)
+                    rt = ctx.eng.return_term(b)
+                    if any(x is r for x in walk(rt)):
+                        tainted_closures.add(b.path)
+    n = len(sources)
+    bad = []
+    if sources:
+        ids = {id(r) for _, _, r in sources}
+
+        def tainted(t):
+            # (the value of `Vec::with_capacity(c)` does not depend on c: the walk stops at allocation-size sinks)
+            stack = [t]
+            seen_ = 0
+            while stack and seen_ < 200000:
+                x = stack.pop()
+                seen_ += 1
+                if id(x) in ids:
+                    return True
+                if x.tag == 'closure' and x[1] in tainted_closures:
+                    return True
+                if x.tag == 'call' and x[1].split('::')[-1] in SIZE_SINKS:
+                    continue
+                if x.tag == 'ev' and isinstance(x[2], str) and x[2].split('::')[-1] in SIZE_SINKS:
+                    continue
+                for a in x.args:
+                    if hasattr(a, 'tag'):
+                        stack.append(a)
+                    elif isinstance(a, tuple):
+                        stack.extend(z for z in a if hasattr(z, 'tag'))
+            return False
+        for b in fns:
+            if b.impl_trait in ('std::fmt::Debug', 'std::fmt::Display'):
+                continue
+            relevant = any(sb is b for sb, _, _ in sources) or any(cl.path in tainted_closures for cl in facts.closures_of(b))
+            if not relevant:
+                continue
+            for bb, t in ctx.calls(b):
+                d = callee_decl(t)
+                last = d.split('::')[-1]
+                if last in REPRESENTATION:
+                    continue
+                args = ctx.args(b, bb)
+                hot = [i for i, a in enumerate(args) if tainted(a)]
+                if not hot:
+                    continue
+                if last in SIZE_SINKS or last in SIZE_PLUMBING:
+                    continue
+                bad.append((b, bb, d, hot))
+            cfg = ctx.cfgof(b)
+            for blk in b.blocks:
+                tt = blk['term']
+                if blk['cleanup'] or blk['i'] not in cfg.reach_set or tt['k'] != 'switch':
+                    continue
+                c = ctx.eng.operand(b, blk['i'], TERM_IDX, tt['discr'])
+                if tainted(c):
+                    bad.append((b, blk['i'], 'a branch condition', []))
+    rep.check(not bad, RULE, RULE + '/representation', 'no capacity or address is used as a value (%d such calls in the crate, each only sizes an allocation)' % n,
+              'a capacity / address reaches %s: the result depends on how an argument is laid out in memory, not on its value' % (
+                  [(d.split('::')[-1], 'argument %s' % h) for _, _, d, h in bad][:3],), ctx.where(bad[0][0], bad[0][1]) if bad else None)
